@@ -514,7 +514,8 @@ namespace foonathan
             static void* try_allocate_node(allocator_type& state, std::size_t size,
                                            std::size_t alignment) noexcept
             {
-                if (alignment > traits::max_alignment(state))
+                // same alignment guarantee as allocate_node()
+                if (alignment > detail::alignment_for(size))
                     return nullptr;
                 return state.try_allocate_node(size);
             }
@@ -524,8 +525,9 @@ namespace foonathan
             static void* try_allocate_array(allocator_type& state, std::size_t count,
                                             std::size_t size, std::size_t alignment) noexcept
             {
+                // same alignment guarantee as allocate_array()
                 if (count * size > traits::max_array_size(state)
-                    || alignment > traits::max_alignment(state))
+                    || alignment > detail::alignment_for(size))
                     return nullptr;
                 return state.try_allocate_array(count, size);
             }
